@@ -51,6 +51,9 @@ def run_case(case, with_bad=True):
                                 hold=hold, rib=bool(case.get('rib')))
     r = sim.reactor
     out = []
+    # 'late_lost': the connectionLost that follows the agent's own close of an earlier session arrives only after the next
+    # session is up (the peer did not read, the FIN took its time)
+    r.defer_io = bool(case.get('late_lost')) and bool(case.get('prior'))
     # earlier sessions of the same agent, each ended in a different way, before the session under test
     for how in case.get('prior') or []:
         live = ss.live_connectors(sim)
@@ -81,14 +84,31 @@ def run_case(case, with_bad=True):
             r.settle(fire_due=True)
         # next session up to the state wanted (the last prior leads into the session under test)
         guard = 0
-        while not r.attempts() and r.next_time() is not None and guard < 50:
-            r.advance_to(r.next_time())
-            r.settle(fire_due=True)
+        while not r.attempts() and guard < 50:
+            if r.next_time() is None:
+                if not r.pending_io():
+                    break
+                r.deliver_io(0)          # nothing else can happen: the late connectionLost is late, not lost
+                r.settle(fire_due=True)
+            else:
+                r.advance_to(r.next_time())
+                r.settle(fire_due=True)
             guard += 1
         if not r.attempts():
             out.append(('prior-session:no-reconnect:%s' % how, 'no new attempt after a session ended by %s' % how))
             return out, [], sim
         c = ss.establish(sim, caps=caps, as4=as4, upto='ESTABLISHED', hold=hold)
+        if r.defer_io and r.pending_io():
+            st_before = sim.state
+            while r.pending_io():
+                r.deliver_io(0)
+                r.settle(fire_due=True)
+            if st_before == 'ESTABLISHED' and sim.state != 'ESTABLISHED':
+                out.append(('late-connection-lost:running-session-ends:%s' % sim.state,
+                            'the connectionLost of the earlier connection (ended by %s) arrived after the next session was up: state %s -> %s'
+                            % (how, st_before, sim.state)))
+                return out, [], sim
+    r.defer_io = False
     if case.get('prior') and state != 'ESTABLISHED':
         # bring the LAST session only up to the wanted state: end the established one and stop earlier
         live = ss.live_connectors(sim)
@@ -303,13 +323,13 @@ def bad_message(draw):
 
 
 case_strategy = st.builds(
-    lambda state, pre, post, bad, as4, prior, hold, rib, fin: dict(state=state, pre=pre, post=post, type=bad['type'], body=bad['body'],
-                                                                   kind=bad['kind'], as4=as4, prior=prior, hold=hold, rib=rib,
-                                                                   finish_handshake=fin),
+    lambda state, pre, post, bad, as4, prior, hold, rib, fin, late: dict(state=state, pre=pre, post=post, type=bad['type'],
+                                                                         body=bad['body'], kind=bad['kind'], as4=as4, prior=prior, hold=hold,
+                                                                         rib=rib, finish_handshake=fin, late_lost=late),
     st.sampled_from(['ESTABLISHED', 'ESTABLISHED', 'ESTABLISHED', 'OPENCONFIRM', 'OPENSENT']),
     st.integers(0, 2), st.integers(1, 3), bad_message(), st.booleans(),
     st.one_of(st.just([]), st.just([]), st.lists(st.sampled_from(['close', 'marker', 'cease', 'silence', 'fewcaps-marker']), min_size=1, max_size=2)),
-    st.sampled_from([180, 180, 0, 0, 3, 90]), st.booleans(), st.booleans())
+    st.sampled_from([180, 180, 0, 0, 3, 90]), st.booleans(), st.booleans(), st.booleans())
 
 
 def shards(tier):
